@@ -193,6 +193,12 @@ impl Reject {
             let last = s.rsplit('.').next().unwrap_or(s);
             last.chars().filter(|c| !c.is_ascii_digit() && *c != '(' && *c != ')').collect()
         };
+        if self.reason == "variant-read" {
+            // `… = clone x.V.i` where something may have written `x` since the switch on its
+            // discriminant selected `V`: the arm reads the payload of a value that was dropped
+            // and replaced (a `match` whose arms read the matched variable instead of a copy)
+            return "variant-read-of-overwritten-value".into();
+        }
         if self.status.starts_with('P') || (self.agg && self.reason == "dropUninit") {
             return "aggregate-literal-diverging-field".into();
         }
@@ -676,6 +682,17 @@ fn one_case_glue(rep: &mut Report, drv: &mut Driver, src: &str, ret: Ret, origin
             }
             rep.class("defect:drop-clone-glue".to_string());
         }
+        (Some((i, b)), None) if !runtime_element_calls(src).is_empty() => {
+            // The MIR is justified by both verified checkers and hands a value to the list
+            // runtime by raw pointer: MIR lowering emits no Drop for it (the callee owns it), so
+            // the Rust side (`ErasedList::push / contains_owned / index_owned`) has to store or
+            // release it on every path, whatever the list holds.
+            rep.violation(
+                &format!("runtime boundary: {} on a program whose MIR the verified checkers accept; main hands a value to the list runtime by raw pointer ({}), which must store or release it on every path (inputs n={} m={} c={})",
+                    describe(b), runtime_element_calls(src).join(", "), i.n, i.m, i.c),
+                "runtime-consumed-argument", input(i, b));
+            rep.class("defect:runtime-consumed-argument".to_string());
+        }
         (Some((i, b)), None) => {
             if b.ok() {
                 rep.violation(&describe(b), "alloc-imbalance", input(i, b));
@@ -701,6 +718,12 @@ fn one_case_glue(rep: &mut Report, drv: &mut Driver, src: &str, ret: Ret, origin
     }
 }
 
+/// the list methods used in `main` that receive an element as a `DynVal` (raw pointer)
+fn runtime_element_calls(src: &str) -> Vec<&'static str> {
+    let body = src.split("main(").nth(1).unwrap_or(src);
+    [".push(", ".contains(", ".index("].into_iter().filter(|m| body.contains(m)).collect()
+}
+
 /// class of a glue program: the field-order pattern of its declarations (carried in the origin)
 fn class_of_glue(origin: &str, _src: &str) -> String {
     origin.split('|').nth(1).unwrap_or("?").to_string()
@@ -712,7 +735,7 @@ fn class_sig(src: &str) -> String {
     let mut f = vec![];
     for (k, pat) in [("w", "while "), ("f", "for "), ("m", "match "), ("g", ") if "), ("r", "return"),
                      ("a", "accept"), ("j", "reject"), ("q", ")?"), ("&", "&&"), ("|", "||"), ("R", "R {"),
-                     ("Q", "Q {"), ("E", "E."), ("F", "f\""), ("K", "KT"), ("L", "["), ("_", "_ "), ("=", ".a = "), ("p", ".push(")] {
+                     ("Q", "Q {"), ("E", "E."), ("F", "f\""), ("K", "KT"), ("L", "["), ("_", "_ "), ("=", ".a = "), ("p", ".push("), ("c", ".contains("), ("i", ".index("), ("x", ".concat("), ("s", ".swap("), ("G", ") if { ")] {
         let n = body.matches(pat).count();
         if n > 0 {
             f.push(format!("{k}{}", n.min(3)));
@@ -782,6 +805,32 @@ fn table() -> Vec<(&'static str, Ret, String)> {
         ("witness-dead-guard", Ret::U32, f("u32", "match maybe(c, m) { None => 1, _ if s == \"lit1\" => 2, _ => 3 }")),
         ("clean-fstring-accept", Ret::Verdict, format!("{pre}filtermap main({p}) {{ let x = f\"a{{n}}b{{if c {{ accept t }} else {{ m }}}}\"; reject x }}\n")),
         ("clean-list", Ret::ListTk, f("List[Tk]", "let l = [t, mk(1)]; l.push(mk(2)); if c { return l + many(n); } l")),
+        // a guard that assigns to the variable being matched: the arms must read the value the
+        // match started with (its own copy of the examinee), not what the variable holds now
+        ("witness-examinee-reassigned", Ret::U32, f("u32", "let x = opt(t, true); match x { Some(y) if { x = None; id(y) == n } => 1, Some(z) => id(z), None => 3 }")),
+        ("witness-examinee-enum-reassigned", Ret::U32, f("u32", "let e = E.B(s, t); match e { B(q, x) if { e = E.C; slen(q) == n } => 1, B(q, x) => id(x) + slen(q), A(x) => id(x), C => 0 }")),
+        ("clean-examinee-param-reassigned", Ret::U32, format!("{pre}fn g(x: Tk?, n: u32) -> u32 {{ match x {{ Some(y) if {{ x = Some(mk(1)); id(y) == n }} => 1, Some(z) if {{ x = None; id(z) == n + 1 }} => 2, Some(w) => id(w), None => 3 }} }}\nfn main({p}) -> u32 {{ g(opt(t, true), n) + g(opt(mk(m), c), m) }}\n")),
+        ("clean-examinee-reassigned-in-loop", Ret::U32, f("u32", "let x = opt(t, true); let i = 0; let k = 0; while i < n { k = k + match x { Some(y) if { x = maybe((i == m), i); false } => 1, Some(z) => id(z), None => 3 }; i = i + 1; } k")),
+        ("clean-examinee-binding-reassigned", Ret::U32, f("u32", "match E.A(t) { A(w) => { let o = opt(w, true); match o { Some(y) if { o = None; c } => id(y), Some(z) => id(z) + 1, None => 0 } }, B(q, w) => 1, C => 2 }")),
+        ("clean-examinee-field-reassigned", Ret::U32, f("u32", "let q = Q { r: R { a: t, b: s, k: n }, o: maybe(true, m) }; match q.o { Some(y) if { q.o = None; id(y) == n } => 1, Some(z) => id(z), None => 3 }")),
+        ("clean-examinee-reassigned-in-arm", Ret::U32, f("u32", "let x = opt(t, c); match x { Some(y) => { x = None; id(y) }, None => { x = Some(mk(n)); 3 } }")),
+        ("clean-question-on-variable", Ret::OptTk, f("Tk?", "let x = maybe(c, n); let y = x?; x = None; Some(y)")),
+        // values handed to the type-erased list runtime by raw pointer (`List.push / contains /
+        // index`): the Rust side releases or stores them, whatever the list holds at that moment
+        // (n = number of elements: 0, 1, 2, 5; m decides found / not found)
+        ("rt-contains-tk", Ret::U32, f("u32", "let l = many(n); if l.contains(mk(m)) { 1 } else { 0 }")),
+        ("rt-index-tk", Ret::U32, f("u32", "match many(n).index(mk(m)) { Some(i) => 1, None => 0 }")),
+        ("rt-contains-empty-literal", Ret::U32, f("u32", "let l: List[Tk] = []; if l.contains(t) { 1 } else { 0 }")),
+        ("rt-index-empty-literal", Ret::U32, f("u32", "let l: List[Tk] = []; match l.index(mk(n)) { Some(i) => 1, None => 0 }")),
+        ("rt-contains-string", Ret::U32, f("u32", "let l: List[String] = []; let i = 0; while i < n { l.push(f\"a{i}\"); i = i + 1; } if l.contains(f\"a{m}\") { 1 } else { 0 }")),
+        ("rt-index-string", Ret::U32, f("u32", "let l: List[String] = []; let i = 0; while i < n { l.push(s + f\"{i}\"); i = i + 1; } match l.index(s + f\"{m}\") { Some(i) => 1, None => 0 }")),
+        ("rt-contains-list", Ret::U32, f("u32", "let l: List[List[Tk]] = []; let i = 0; while i < n { l.push(many(i)); i = i + 1; } if l.contains(many(m)) { 1 } else { 0 }")),
+        // element types whose drop function is generated glue (the vtable's drop_fn)
+        ("rt-contains-enum", Ret::U32, f("u32", "let l: List[E] = []; let i = 0; while i < n { l.push(E.B(s, mk(i))); i = i + 1; } if l.contains(if c { E.A(mk(m)) } else { E.B(s, mk(m)) }) { 1 } else { 0 }")),
+        ("rt-index-record", Ret::U32, f("u32", "let l: List[R] = []; let i = 0; while i < n { l.push(R { a: mk(i), b: s, k: i }); i = i + 1; } match l.index(R { a: mk(m), b: s, k: m }) { Some(j) => 1, None => 0 }")),
+        ("rt-contains-option", Ret::U32, f("u32", "let l: List[Tk?] = []; let i = 0; while i < n { l.push(maybe(c, i)); i = i + 1; } if l.contains(Some(mk(m))) { 1 } else { 0 }")),
+        ("rt-seen-loop", Ret::U32, f("u32", "let seen: List[Tk] = []; for e in many(n) + many(m) { if !seen.contains(e) { seen.push(e); } } count(seen)")),
+        ("rt-push-get-swap-concat", Ret::U32, f("u32", "let l = many(n); l.push(t); l.swap(0, 1); let a = l.concat(many(m)); let k = match a.get(1) { Some(x) => id(x), None => 0 }; if a.is_empty() { k } else { k + 1 }")),
     ]
 }
 
@@ -953,7 +1002,7 @@ fn run_corpus(rep: &mut Report, repo: &str) {
         }
     }
     rep.notes.push(format!(
-        "corpus: {} scripts harvested, {} compile with the harness runtime, {} MIR items / {} blocks accepted by ownCheck",
+        "corpus: {} scripts harvested, {} compile with the harness runtime, {} MIR items / {} blocks accepted by ownCheck and varCheck",
         scripts.len(), compiled, items, blocks
     ));
 }
@@ -1139,7 +1188,7 @@ fn main() {
             let out = &args[2];
             let module_ns = args.get(3).map(|s| s.as_str()).unwrap_or("RotoV.C03.Now");
             let mut drv = Driver::spawn().expect("lean driver");
-            let mut text = String::from("/- generated by `c03 emit-lean` from the compiler's MIR dumps; do not edit -/\nimport RotoV.Model.Mir\n\n");
+            let mut text = String::from("/- generated by `c03 emit-lean` from the compiler's MIR dumps; do not edit -/\nimport RotoV.Model.Mir\nimport RotoV.Model.MirVariant\n\n");
             text.push_str(&format!("namespace {module_ns}\nopen RotoV.Mir\n\n"));
             for (name, _ret, src) in table() {
                 if !name.starts_with("witness-") {
@@ -1160,6 +1209,8 @@ fn main() {
                 let cert = drv.ask(&format!("c03 cert {}", nums_line(&it.nums)));
                 text.push_str(&format!("/-- MIR of `main` in:\n{}\n-/\ndef {ident} : Item :=\n  {lean}\n\n", src.replace("-/", "- /")));
                 text.push_str(&format!("/-- certificate proposed by the untrusted search (empty if it found none) -/\ndef {ident}Cert : Cert :=\n  {cert}\n\n"));
+                let vcert = drv.ask(&format!("c03 vcert {}", nums_line(&it.nums)));
+                text.push_str(&format!("/-- known-variant certificate proposed by the untrusted search (empty if it found none) -/\ndef {ident}VCert : VCert :=\n  {vcert}\n\n"));
             }
             text.push_str(&format!("end {module_ns}\n"));
             std::fs::write(out, text).expect("write");
